@@ -9,6 +9,8 @@ import re
 
 from .. import callgraph, facts
 from ..prov import Prov, flatten
+from ..common import method, arg_roots
+from ..util import norm, last
 from ..report import PROVED, REFUTED, UNDECIDED
 
 LEVEL = "proof"
@@ -174,6 +176,7 @@ def run(ck, tier):
     _loopback(ck, p)
     _open_guard(ck, p)
     _save_paths(ck, p)
+    _dict_name(ck, p)
     _noread(ck, p, g)
     _externs(ck, g, par_net)
     _deps(ck, p)
@@ -405,6 +408,42 @@ def _save_paths(ck, p):
         reads_field = _reads_field(g, "file_dict_path")
         ck.decide(rule, "path:get_file_dict_path", has_join and has_name and reads_field, g.span,
                   "get_file_dict_path joins Config.file_dict_path (%s) with file_dict_name(url) (%s)" % (reads_field, has_name))
+
+
+def _dict_name(ck, p):
+    """the file name that get_file_dict_path joins onto the configured directory must be ONE path
+    component: PathBuf::join with a name that contains a separator (or is absolute) leaves the directory"""
+    rule = "R-C10-files"
+    f = p.fns.get("harper_ls::dictionary_io::file_dict_name")
+    if not ck.anchor(rule, "dictionary_io::file_dict_name", f):
+        return
+    ck.saw(f)
+    pv = Prov(f)
+    pushes = [(bi, t) for bi, t in f.calls() if method(t) in ("push_str", "push", "extend", "insert_str", "insert", "write_str", "write_fmt", "add_assign") and len(t["args"]) > 1]
+    if not pushes:
+        ck.undecided(rule, "path:file_dict_name", f.span, "the name is not assembled by pushes onto a String: construction not understood")
+        return
+    verdict, why = "PROVED", []
+    for bi, t in pushes:
+        roots = arg_roots(f, pv, t["args"][-1])
+        names = {last(norm(o[3] or o[2] or "")) for o in roots if o[0] == "call"}
+        consts = [o[1] for o in roots if o[0] == "const"]
+        if "components" in names and "as_os_str" in names:
+            why.append("%s(Path component)" % method(t))
+            continue
+        if not names and consts and all("/" not in str(c) and "\\\\" not in str(c) for c in consts):
+            why.append("%s(%s)" % (method(t), ",".join(map(str, consts))))
+            continue
+        if names & {"percent_decode_str", "percent_decode", "decode_utf8_lossy", "decode_utf8", "urlencoding_decode", "from_utf8_lossy"}:
+            verdict = "REFUTED"
+            why.append("%s of text that is percent-decoded AFTER the path was split (%s)" % (method(t), sorted(names)))
+            break
+        verdict = "UNDECIDED" if verdict == "PROVED" else verdict
+        why.append("%s of %s" % (method(t), sorted(names) or consts))
+    detail = "the per-file dictionary name is assembled from: %s" % "; ".join(why)
+    if verdict == "REFUTED":
+        detail += " - an encoded separator (%2F) inside one URI segment becomes a real `/`, the joined name is then absolute or climbs out, and save_dict creates a file outside the configured dictionary directory"
+    ck.ob(rule, "path:file_dict_name", verdict, f.span, detail)
 
 
 def _field_names(leaves):
